@@ -89,7 +89,10 @@ func runC10_1(c *Ctx) {
 			if neg {
 				present, absent = absent, present
 			}
-			if BlockDominatesInstr(absent, mu) {
+			_ = absent
+			// the lookup precedes the insert on every path; that only the not-present edge continues to it is
+			// established below (the present edge ends in the no-return Fatalf)
+			if Dominates(lk, mu) {
 				ok = true
 			}
 			// the present edge never reaches the insert nor a return
@@ -312,12 +315,19 @@ func runC10_3(c *Ctx) {
 			found := flag.Value.String() == "true"
 			switch {
 			case rv[0] == hit && hit != nil:
-				// must be on the ok edge
+				// must be on the ok edge, and the ok edge must return the hit unconditionally
 				dom := false
 				for _, b := range fn.Blocks {
 					ifi, isIf := b.Instrs[len(b.Instrs)-1].(*ssa.If)
 					if isIf && ifi.Cond == okv && BlockDominatesInstr(b.Succs[0], ret) {
 						dom = true
+						w := &Walk{P: p}
+						w.FromBlock(b.Succs[0])
+						for _, e := range w.Exits {
+							if ReturnVals(e.(*ssa.Return))[0] != hit {
+								dom = false
+							}
+						}
 					}
 				}
 				if !dom || !found {
